@@ -3,9 +3,8 @@
 //!   axh gen <engine> --seed S --tier quick|thorough --out CASES --tags TAGS
 //!   axh exec <engine>                      (stdin: case lines, stdout: one output line per case)
 //!   axh run <engine> --cases F --out O     (supervises `exec` children: hang / abort detection)
-//!   axh extract --out Generated.lean
+//!   axh extract --dir lean/AxVerif/Generated
 mod engines;
-mod extract;
 mod rng;
 mod supervise;
 mod util;
@@ -97,8 +96,16 @@ fn main() {
             supervise::run(name, eng.rlimit_as_mb(), eng.timeout_ms(), &cases, &out, jobs);
         }
         "extract" => {
-            let out = arg(&args, "--out").expect("--out");
-            std::fs::write(out, extract::generated_lean()).unwrap();
+            // writes one file per engine into the given directory, touching only files whose content changed
+            let dir = arg(&args, "--dir").expect("--dir");
+            for (name, content) in engines::all_generated() {
+                let p = std::path::Path::new(&dir).join(name);
+                let old = std::fs::read_to_string(&p).unwrap_or_default();
+                if old != content {
+                    std::fs::write(&p, content).unwrap();
+                    println!("updated {}", name);
+                }
+            }
         }
         other => {
             eprintln!("unknown sub-command {other}");
